@@ -49,7 +49,7 @@ def run_case(case):
     from labella.scale import TimeScale
     kind = case[0]
     try:
-        with horizon(20.0):
+        with horizon(6.0):
             if kind == "cal":
                 _, u, t = case
                 iv = d3_time[u]
@@ -148,7 +148,11 @@ def run_shard(shard):
                 acc.evals += 1
                 acc.trans += 1
                 acc.counters["zone_runs"] += 1
-                if got != ref:
+                if got == "HANG" and ref != "HANG":
+                    acc.violation({"case": list(c), "zone": zone}, "HANG:%s" % c[0],
+                                  "%s %r under TZ=%s did not return (it does under UTC)" % (c[0], _short(c), zone),
+                                  order=(["cal", "map", "ticks", "nice", "export"].index(c[0]), i, ZONES.index(zone)))
+                elif got != ref:
                     k = next((j for j, (a, b) in enumerate(zip(got, ref)) if a != b), min(len(got), len(ref)))
                     acc.violation({"case": list(c), "zone": zone}, "C18:%s-differs" % c[0],
                                   "%s %r under TZ=%s gives ...%s..., under UTC ...%s..."
@@ -176,6 +180,8 @@ def replay(case):
         got = run_case(c)
     finally:
         core.set_tz("UTC")
+    if got == "HANG" and ref != "HANG":
+        return "HANG:%s" % c[0], "%s under TZ=%s did not return" % (c[0], case["zone"])
     if got != ref:
         return "C18:%s-differs" % c[0], "%s under TZ=%s differs from the UTC run" % (c[0], case["zone"])
     return None
